@@ -5,6 +5,7 @@ import (
 	"crypto/md5"
 	"encoding/binary"
 	"fmt"
+	"time"
 
 	"github.com/hujm2023/go-sms-protocol/cmpp"
 	"github.com/hujm2023/go-sms-protocol/cmpp/cmpp20"
@@ -179,6 +180,48 @@ func c15Case(c *fw.Case, targeted bool) {
 		}
 	}
 
+	// (c) a receiver decodes from its receive buffer, reads the next frame into the same buffer and verifies only then:
+	// the decoded authenticator and timestamp are values, they must not follow the buffer
+	if !pan && encErr == nil && decErr == nil {
+		buf := append([]byte(nil), img...)
+		var heldAuth string
+		var heldTs uint32
+		var derr error
+		p2, v2, s2 := fw.Try(func() {
+			switch fam {
+			case "cmpp20":
+				q := new(cmpp20.PduConnect)
+				derr = q.IDecode(buf)
+				for i := range buf {
+					buf[i] = byte(0x5a + i)
+				}
+				heldAuth, heldTs = q.AuthenticatorSource, q.Timestamp
+			case "cmpp30":
+				q := new(cmpp30.Connect)
+				derr = q.IDecode(buf)
+				for i := range buf {
+					buf[i] = byte(0x5a + i)
+				}
+				heldAuth, heldTs = q.AuthenticatorSource, q.Timestamp
+			default:
+				q := new(smgp30.Login)
+				derr = q.IDecode(buf)
+				for i := range buf {
+					buf[i] = byte(0x5a + i)
+				}
+				heldAuth, heldTs = q.AuthenticatorClient, q.Timestamp
+			}
+		})
+		c.Evals(1)
+		if p2 {
+			c.Failf("request-"+fw.PanicSig(v2, s2)+"/"+fam, "%s: %v\n%s", ctx, v2, s2)
+		} else if derr == nil && recvAuth == string(refClientAuth(cr.account, cr.secret, recvTs, zeros)) {
+			if heldAuth != string(refClientAuth(cr.account, cr.secret, heldTs, zeros)) {
+				c.Failf("request-verification-fails-after-buffer-reuse/"+fam, "the authenticator decoded from a receive buffer reads %s once the buffer holds the next frame (sent %s): the decoded field follows the buffer\n%s", hx([]byte(heldAuth)), hx(want), ctx)
+			}
+		}
+	}
+
 	// response: AuthenticatorISMG / AuthenticatorServer = MD5(Status + request authenticator + secret)
 	statusLen := 4
 	if fam == "cmpp20" {
@@ -267,6 +310,42 @@ func c15Case(c *fw.Case, targeted bool) {
 				hx(recomputed), hx([]byte(rAuth)), hx(wantResp), cr.status, rStatus, ctx, hx(img))
 		}
 	}
+	if !pan && encErr == nil && decErr == nil && rAuth == string(refServerAuth(rStatus, statusLen, want, cr.secret)) {
+		buf := append([]byte(nil), img...)
+		var held string
+		var hStatus uint32
+		p2, v2, s2 := fw.Try(func() {
+			switch fam {
+			case "cmpp20":
+				q := new(cmpp20.PduConnectResp)
+				_ = q.IDecode(buf)
+				for i := range buf {
+					buf[i] = byte(0xc3 - i)
+				}
+				held, hStatus = q.AuthenticatorISMG, uint32(q.Status)
+			case "cmpp30":
+				q := new(cmpp30.ConnectResp)
+				_ = q.IDecode(buf)
+				for i := range buf {
+					buf[i] = byte(0xc3 - i)
+				}
+				held, hStatus = q.AuthenticatorISMG, q.Status
+			default:
+				q := new(smgp30.LoginResp)
+				_ = q.IDecode(buf)
+				for i := range buf {
+					buf[i] = byte(0xc3 - i)
+				}
+				held, hStatus = q.AuthenticatorServer, q.Status
+			}
+		})
+		c.Evals(1)
+		if p2 {
+			c.Failf("response-"+fw.PanicSig(v2, s2)+"/"+fam, "%s: %v\n%s", ctx, v2, s2)
+		} else if held != string(refServerAuth(hStatus, statusLen, want, cr.secret)) {
+			c.Failf("response-verification-fails-after-buffer-reuse/"+fam, "the response authenticator decoded from a receive buffer reads %s once the buffer holds the next frame (sent %s)\n%s", hx([]byte(held)), hx(wantResp), ctx)
+		}
+	}
 	c.Cover(fmt.Sprintf("%s/%s/req-%s/resp-%s/acct%d", c.Stage.Name, fam, nulClass(want), nulClass(wantResp), len(cr.account)))
 	c.Sample(2, map[string]any{"family": fam, "account": cr.account, "secret": hx([]byte(cr.secret)), "timestamp": cr.ts, "status": cr.status, "request_digest": hx(want), "response_digest": hx(wantResp)})
 }
@@ -275,7 +354,7 @@ func init() {
 	fw.Register(&fw.Prop{
 		ID:        "C15",
 		Technique: "runtime monitor: independent MD5 formula (from the CMPP/SMGP documents) vs library generators, and end-to-end verification after encode -> decode; targeted stream of credentials whose digest contains 0x00",
-		Rule: "accounts 0..6 (CMPP) / 0..8 (SMGP) octets, secrets 0..32 octets, timestamps {0, 1, 0101000000, 1231235959, random valid}, status codes; a targeted stage keeps only credential sets whose request (and often response) digest has 0x00 at the first / middle / last octet; CMPP 2.0, CMPP 3.0 (4-octet status), SMGP 3.0; constructors NewConnect/NewLogin read back at the clock's timestamp; " +
+		Rule: "accounts 0..6 (CMPP) / 0..8 (SMGP) octets, secrets 0..32 octets, timestamps {0, 1, 0101000000, 1231235959, random valid}, status codes; a targeted stage keeps only credential sets whose request (and often response) digest has 0x00 at the first / middle / last octet; CMPP 2.0, CMPP 3.0 (4-octet status), SMGP 3.0; constructors NewConnect/NewLogin read back at the clock's timestamp; GenConnectTimestamp under injected clocks that advance 0 ms..60 s between readings, across second and year boundaries; every decoded authenticator re-verified after the receive buffer was overwritten with the next frame; " +
 			"distinct_nontrivial = distinct (stage, family, NUL class of request digest, NUL class of response digest, account length) combinations",
 		Assumptions: []string{
 			"formula sources: CMPP §7.4.1.1/§7.4.1.2, SMGP 3.0.3 §6.2.2/§6.2.7 (spec/extracted/*.txt)",
@@ -284,6 +363,81 @@ func init() {
 		Stages: []*fw.Stage{
 			{Name: "random", N: q(150000, 100000000), Run: func(c *fw.Case) { c15Case(c, false) }},
 			{Name: "zero-octet-digests", N: q(30000, 10000000), Run: func(c *fw.Case) { c15Case(c, true) }},
+			{
+				// a login built while the clock runs: GenConnectTimestamp hands out the timestamp twice (string for the
+				// digest, number for the PDU); both must denote the same instant whatever the clock does between reads
+				Name: "clock", N: q(30000, 20000000),
+				Run: func(c *fw.Case) {
+					r := c.R
+					base := time.Date(2026, time.Month(r.Range(1, 12)), r.Range(1, 28), r.Intn(24), r.Intn(60), r.Intn(60), 0, time.UTC)
+					if r.Chance(1, 3) {
+						base = time.Date(2026, 12, 31, 23, 59, 59, 0, time.UTC) // rolls over to 0101000000
+					}
+					base = base.Add(time.Duration(r.Pick(0, 1, 500000000, 999999999, r.Intn(1000000000))))
+					step := time.Duration(r.Pick(0, 1, 400, 999, 1000, 1001, 60000, r.Intn(3000))) * time.Millisecond
+					reads := 0
+					var handed []time.Time
+					clock := func() time.Time {
+						t := base.Add(time.Duration(reads) * step)
+						reads++
+						handed = append(handed, t)
+						return t
+					}
+					var str string
+					var num uint32
+					c.Evals(1)
+					if pan, val, st := fw.Try(func() { str, num = cmpp.GenConnectTimestamp(clock) }); pan {
+						c.Failf("clock-"+fw.PanicSig(val, st), "GenConnectTimestamp: %v\n%s", val, st)
+						return
+					}
+					ctx := fmt.Sprintf("GenConnectTimestamp with a clock at %s advancing %v per reading (%d readings) = (%q, %d)", base.Format(time.RFC3339Nano), step, reads, str, num)
+					if str != string(ts10(num)) {
+						c.Failf("timestamp-pair-inconsistent", "%s: the string the digest is computed over and the number sent in the PDU denote different instants", ctx)
+						return
+					}
+					ok := false
+					for _, t := range handed {
+						if t.Format("0102150405") == str {
+							ok = true
+						}
+					}
+					if !ok {
+						c.Failf("timestamp-not-from-clock", "%s: no reading of the clock gives this timestamp", ctx)
+					}
+					// the exchange built from the pair verifies at the peer
+					fam := []string{"cmpp20", "cmpp30"}[c.Idx%2]
+					acct := string(nonNulASCII(r, r.Range(0, 6)))
+					sec := string(nonNulASCII(r, r.Range(0, 20)))
+					auth := cmpp.GenConnectAuth(acct, sec, str)
+					var gotAuth string
+					var gotTs uint32
+					var err error
+					if fam == "cmpp20" {
+						p := &cmpp20.PduConnect{Header: cmpp.NewHeader(0, cmpp.CommandConnect, 1), SourceAddr: acct, AuthenticatorSource: string(auth), Version: 0x20, Timestamp: num}
+						img, e := p.IEncode()
+						q := new(cmpp20.PduConnect)
+						if err = e; e == nil {
+							err = q.IDecode(img)
+						}
+						gotAuth, gotTs = q.AuthenticatorSource, q.Timestamp
+					} else {
+						p := &cmpp30.Connect{Header: cmpp.NewHeader(0, cmpp.CommandConnect, 1), SourceAddr: acct, AuthenticatorSource: string(auth), Version: 0x30, Timestamp: num}
+						img, e := p.IEncode()
+						q := new(cmpp30.Connect)
+						if err = e; e == nil {
+							err = q.IDecode(img)
+						}
+						gotAuth, gotTs = q.AuthenticatorSource, q.Timestamp
+					}
+					c.Evals(1)
+					if err != nil {
+						c.Failf("request-transport-error/"+fam, "%s: %v", ctx, err)
+					} else if gotAuth != string(refClientAuth(acct, sec, gotTs, 9)) {
+						c.Failf("request-verification-fails/"+fam+"/clock", "%s: the peer recomputes %s from timestamp %010d, received %s", ctx, hx(refClientAuth(acct, sec, gotTs, 9)), gotTs, hx([]byte(gotAuth)))
+					}
+					c.Cover(fmt.Sprintf("clock/%s/step=%v/reads=%d", fam, step >= time.Second, reads))
+				},
+			},
 			{
 				Name: "constructors", N: q(600, 500000),
 				Run: func(c *fw.Case) {
